@@ -330,6 +330,10 @@ func (x *Exec) loadAddr(st *State, a *Addr) Val {
 		}
 		return x.readComps(st, a.Key, a.T, "0")
 	case AElem:
+		if a.ElemT != nil {
+			whole := flatten(x.elemReadAbs(st, a.Key, a.ElemT, a.Base, a.Idx))
+			return unflatten(a.T, whole[a.CompLo:a.CompLo+a.CompN])
+		}
 		return x.elemReadAbs(st, a.Key, a.T, a.Base, a.Idx)
 	}
 	panic("loadAddr")
@@ -342,6 +346,15 @@ func (x *Exec) storeAddr(st *State, a *Addr, v Val) {
 	case AGlobal:
 		x.writeComps(st, a.Key, a.T, "0", v)
 	case AElem:
+		if a.ElemT != nil {
+			// read-modify-write of one field of a struct element
+			l := x.lazyFor(st, a.ElemT)
+			whole := append([]string{}, l.read(a.Base, a.Idx)...)
+			copy(whole[a.CompLo:a.CompLo+a.CompN], flatten(v))
+			l.ups = append(l.ups, Upd{arr: a.Base, idx: a.Idx, v: whole})
+			st.hv++
+			return
+		}
 		l := x.lazyFor(st, a.T)
 		l.ups = append(l.ups, Upd{arr: a.Base, idx: a.Idx, v: flatten(v)})
 		st.hv++
